@@ -443,6 +443,13 @@ def main(argv=None):
     except Timeout:
         print(f"[{prop}] TIMEOUT after {budget}s (exit 2, not a violation)", flush=True)
         sys.exit(2)
+    except SystemExit:
+        raise
+    except BaseException:  # noqa: BLE001  — a crash of the harness itself is infrastructure, never a violation
+        import traceback
+        traceback.print_exc()
+        print(f"[{prop}] HARNESS ERROR (exit 2, not a violation)", flush=True)
+        sys.exit(2)
 
 
 if __name__ == "__main__":
